@@ -1,11 +1,14 @@
-(* which tied models lie in the fragment on which the C01/C02 theorems are proved end to end *)
+(* which tied models lie in the fragments on which the C01/C02 theorems are proved end to end *)
 From Coq Require Import ZArith List String.
-From Rooc Require Import Base.XQ Model.Exp Model.Bounds Model.Linearize Tie.TieC01 Proof.CompileAffine.
+From Rooc Require Import Base.XQ Model.Exp Model.Bounds Model.Linearize Tie.TieC01 Proof.CompileAffine Proof.CompileAbs.
 Import ListNotations.
-Fixpoint frag_from (i : Z) (l : list lcase) : list Z :=
+Fixpoint frag_from (f : model -> bool) (i : Z) (l : list lcase) : list Z :=
   match l with
   | [] => []
-  | c :: cs => if (match lc_expect c with inr _ => affine_modelb (lc_model c) | inl _ => false end)
-               then i :: frag_from (i + 1)%Z cs else frag_from (i + 1)%Z cs
+  | c :: cs => if (match lc_expect c with inr _ => f (lc_model c) | inl _ => false end)
+               then i :: frag_from f (i + 1)%Z cs else frag_from f (i + 1)%Z cs
   end.
-Definition in_affine_fragment (l : list lcase) : list Z := frag_from 0%Z l.
+Definition in_affine_fragment (l : list lcase) : list Z := frag_from affine_modelb 0%Z l.
+(* the arithmetic-with-abs fragment of Proof/CompileAbs.v (contains the affine one up to its side conditions) *)
+Definition in_abs_fragment (l : list lcase) : list Z := frag_from abs_modelb 0%Z l.
+Definition in_either_fragment (l : list lcase) : list Z := frag_from (fun m => affine_modelb m || abs_modelb m)%bool 0%Z l.
